@@ -97,13 +97,21 @@ func (h *harnessRun) noteUnknownBranch(msg string) {
 }
 func (h *harnessRun) noteViolation(v *Violation) {
 	h.mu.Lock()
+	// keep one witness per (label, structural shape), up to 48 shapes per
+	// label: witnesses from different structural choices (verifChoose) are
+	// different scenarios, and only some of them may replay natively (e.g.
+	// those that do not depend on the value of an uninterpreted hash).
 	n := 0
+	dup := false
 	for _, o := range h.res.Violations {
 		if o.Label == v.Label && o.Panic == v.Panic {
 			n++
+			if o.Shape == v.Shape {
+				dup = true
+			}
 		}
 	}
-	if n < 3 {
+	if !dup && n < 48 {
 		h.res.Violations = append(h.res.Violations, v)
 	}
 	h.mu.Unlock()
@@ -233,7 +241,7 @@ func (h *harnessRun) runPath(sess *session, prefix []int) {
 				if !ok {
 					h.noteInconclusive("uncaught panic " + panicMsg + " but no model")
 				} else {
-					h.noteViolation(&Violation{Harness: h.name, Label: "uncaught-panic", Where: r.where, Vector: vec,
+					h.noteViolation(&Violation{Harness: h.name, Label: "uncaught-panic", Where: r.where, Vector: vec, Shape: p.shape(),
 						Path: append([]int(nil), p.trace...), Panic: panicMsg})
 				}
 			case engineErr:
